@@ -5,10 +5,11 @@ import os
 import pickle
 import random
 
-from vlib import core, toy
+from vlib import core, toy, ecdsadrv
 from vlib.core import b2l
 
 TRACE_CFG = "INIT Init\nNEXT Next\nCHECK_DEADLOCK FALSE\n"
+ROT = [0]
 LABELS = {"spki": b"PUBLIC KEY", "ssleay": b"EC PRIVATE KEY", "pkcs8": b"PRIVATE KEY"}
 
 
@@ -28,6 +29,20 @@ def scalars(c, rnd, quick, ecdsa):
         if raw[0] == 0 or raw[L] == 0:
             vals.add(d)
             found += 1
+    # scalars that put base64 text looking like a PEM boundary keyword at the start of a 64-character body line: the DER bytes at
+    # an offset that is a multiple of 48 spell "END..." (10 D0 C0) or "BEGIN" (04 41 88 34)
+    for fmt in ("ssleay", "pkcs8"):
+        probe = SigningKey.from_secret_exponent(1, c).to_der(format=fmt)
+        off = probe.index(b"\x00" * (l - 1) + b"\x01")
+        for pat in (b"\x10\xd0\xc0", b"\x04\x41\x88\x34"):
+            for line in range(48, off + l - len(pat) + 1, 48):
+                if line >= off:
+                    db = bytearray(b"\x5a" * l)
+                    db[0] = 0
+                    db[line - off:line - off + len(pat)] = pat
+                    v = int.from_bytes(db, "big")
+                    if 1 <= v < n:
+                        vals.add(v)
     return sorted(vals)
 
 
@@ -41,7 +56,8 @@ def run(ctx):
     for c in cl:
         ds = scalars(c, rnd, quick, ecdsa) if c.order > 1000 else list(range(1, c.order, 1 if not quick else 7))
         if quick and c.order > 1000:
-            ds = ds[:3] + ds[-4:]
+            special = [v for v in ds if v.to_bytes(c.baselen, "big").count(b"\x5a") > c.baselen - 6]
+            ds = sorted(set(ds[:3] + ds[-4:] + special[:: max(1, len(special) // 2)]))
         for d in ds:
             sk = SigningKey.from_secret_exponent(d, c, hashfunc=hashlib.sha256)
             vk = sk.get_verifying_key()
@@ -71,7 +87,13 @@ def run(ctx):
             for enc in ("raw", "uncompressed", "compressed", "hybrid"):
                 if enc == "compressed" and len("%x" % c.curve.p()) <= 2:
                     continue
-                vk2 = VerifyingKey.from_string(vk.to_string(enc), c, hashfunc=hashlib.sha256)
+                ROT[0] += 1
+                try:
+                    vk2 = VerifyingKey.from_string(ecdsadrv.carrier(vk.to_string(enc), ROT[0]), c, hashfunc=hashlib.sha256)
+                except BaseException as e:  # noqa
+                    ctx.violation("reloading vk.to_string(%s) from a %s raised %s on %s d=%d" % (
+                        enc, type(ecdsadrv.carrier(b"ab", ROT[0])).__name__, type(e).__name__, c.name, d), {"curve": c.name, "d": d, "enc": enc})
+                    continue
                 same_key(ctx, vk, vk2, sig0, (c.name, d, "vk.to_string(%s)" % enc))
             sk2 = SigningKey.from_string(sk.to_string(), c, hashfunc=hashlib.sha256)
             if sk2 != sk or sk2.sign_deterministic(b"c09", sigencode=util.sigencode_der) != sig0 or len(sk.to_string()) != c.baselen:
@@ -129,6 +151,13 @@ def same_key(ctx, vk, vk2, sig0, what):
 
 def roundtrip(ctx, c, sk, vk, fmt, pem, out, sig0, what):
     from ecdsa import SigningKey, VerifyingKey, util
+    # the same bytes in another bytes-like container (PEM: bytes, bytearray or text)
+    ROT[0] += 1
+    if pem:
+        out = [out, bytearray(out), out.decode("ascii")][ROT[0] % 3]
+    else:
+        out = ecdsadrv.carrier(out, ROT[0])
+    what = tuple(what) + ("loaded from a %s" % type(out).__name__,)
     try:
         if fmt == "spki":
             vk2 = VerifyingKey.from_pem(out, hashfunc=hashlib.sha256) if pem else VerifyingKey.from_der(out, hashfunc=hashlib.sha256)
